@@ -267,3 +267,19 @@ func TestC14ScriptList(t *testing.T) {
 		}, labels...)
 	})
 }
+
+// TestC14RegressScriptTagPadding: script tags shorter than four letters
+// ("lao ", "nko ", "vai ", "yi  ") were dropped by gtab.Read because the
+// padding spaces ended up inside the BCP 47 private-use extension.
+func TestC14RegressScriptTagPadding(t *testing.T) {
+	for _, ls := range [][]refname.LangSys{
+		{{Script: "lao ", Required: 0xFFFF, Features: []uint16{0}}},
+		{{Script: "nko ", Lang: "DEU ", Required: 1}},
+		{{Script: "vai ", Required: 0xFFFF}, {Script: "vai ", Lang: "ENG ", Required: 0xFFFF, Features: []uint16{2, 3}}},
+		{{Script: "yi  ", Lang: "YIM ", Required: 0xFFFF, Features: []uint16{1}}, {Script: "latn", Required: 0xFFFF}},
+	} {
+		if msg := layoutRoundTrip(ls, gtab.TypeGsub); msg != "" {
+			t.Errorf("script list %v: %s", sortedKeys(ls), msg)
+		}
+	}
+}
